@@ -470,12 +470,25 @@ func run(c Case, k *ev.Case) *ev.Failure {
 					break
 				}
 			}
-			// as for upstreams: several attempts, each on the connection that is current at that moment
+			// as for upstreams: several attempts, each on the connection that is current at that moment. Metadata travels through its
+			// own subscription (seeded change C03/m6: a downstream opened across a reconnect kept the metadata subscription of the dead
+			// connection): what was queued before is drained, then each probe's metadata item has to arrive like its chunk.
+			for i := 0; i < 8; i++ {
+				if rm := env.Do(7003, i, scn.Op{Kind: "read-meta", Obj: s.name, CtxMs: 10}); rm.Error() != nil {
+					break
+				}
+			}
 			var r *scn.Rec
 			for probe := 0; probe < 6; probe++ {
 				scn.FeedDownstream(b.CurrentInc(), s.alias, nil, 4242+uint32(probe))
 				r = env.Do(7002, probe, scn.Op{Kind: "read-data", Obj: s.name, CtxMs: 600})
 				if r.Error() == nil && !r.Hung {
+					if rm := env.Do(7004, probe, scn.Op{Kind: "read-meta", Obj: s.name, CtxMs: 600}); rm.Error() != nil || rm.Hung {
+						r = rm
+						if !streamReportedClosed(env, s) {
+							continue // the connection may have moved on between the two reads: probe again
+						}
+					}
 					break
 				}
 				if streamReportedClosed(env, s) {
